@@ -381,3 +381,74 @@ def c18(ctx):
         return None
 
     run_table(ctx, "EnvelopeTamper", "envtamper", judge, nontrivial=lambda c, o: c["in"]["mut"] != "none", timeout=3000)
+
+
+def c39(ctx):
+    ctx.assumptions = ["file states are created in a temp dir; the check runs as root, so permission-denied states are represented by ENOTDIR / directory-at-path states"]
+    ctx.rule = "every file state of KeyFile.tla (missing, missing dir, empty, garbage, wrong PEM type, public-key PEM, valid, valid with whitespace, directory, path below a file), two consecutive loads each; non-trivial = all"
+
+    def judge(c, o):
+        if o.get("panic"):
+            return ("panic:" + c["state"], o["panic"])
+        for step in ("first", "second"):
+            e, r = c[step], o[step]
+            cls = "error" if r["class"] == "key-and-error" else r["class"]
+            if cls != e["class"]:
+                return ("%s:%s:%s" % (c["state"], step, cls), "file state %s, %s load: got %s, spec says %s" % (c["state"], step, r["class"], e["class"]))
+            if e["class"] == "key" and e["key"] == "stored" and r["key"] != "stored":
+                return ("%s:wrong-key" % c["state"], "loaded key differs from the key stored in the file")
+        if c["first"]["class"] == "key" and o["first"].get("id") != o["second"].get("id"):
+            return ("%s:identity-changes" % c["state"], "second load returned a different identity (%s vs %s)" % (o["first"].get("id"), o["second"].get("id")))
+        return None
+
+    run_table(ctx, "KeyFile", "keyfile", judge)
+
+
+def c38(ctx):
+    ctx.assumptions = ["parsers are exercised on the grammar classes of ConfParse.tla plus seeded random strings over an adversarial alphabet (totality is sampled)"]
+    ctx.rule = ("cases = protocol ids as sequences (0-3) of UTF-8 byte groups, timestamp / duration / URL / transport address text classes, and every list (0-3) of "
+                "static peer-address entries (valid, whitespace, duplicates, malformed); non-trivial = all; plus random strings for totality")
+
+    def judge(c, o):
+        i, e = c["in"], c["out"]
+        if o.get("panic"):
+            return ("panic:" + i["kind"], "%s parser panicked: %s on %s" % (i["kind"], o["panic"], i))
+        k = i["kind"]
+        if k == "pam":
+            if list(o["p1"]) != list(e["p1"]) or list(o["p2"]) != list(e["p2"]) or o["extra"]:
+                return ("pam:map", "ParsePeerAddressMap(%s) = p1:%s p2:%s extra:%s, spec says p1:%s p2:%s" % (i["g"], o["p1"], o["p2"], o["extra"], e["p1"], e["p2"]))
+            if o["errs"] != e["errs"]:
+                return ("pam:errors", "ParsePeerAddressMap(%s) reported %d errors, spec says %d" % (i["g"], o["errs"], e["errs"]))
+            return None
+        if o["accept"] != e["accept"]:
+            return ("%s:%s:%s" % (k, i.get("c") or "-".join(i.get("g", [])) or "empty", "accepted" if o["accept"] else "rejected"),
+                    "%s parser accept=%s, spec says %s for %s" % (k, o["accept"], e["accept"], i))
+        if k == "proto" and not (o["consistent"] and o["allowempty_ok"]):
+            return ("proto:inconsistent", "ParseProtocolID / Validate / ValidateProtocolID disagree on %s" % i)
+        if e.get("roundtrip") and o.get("roundtrip") is False:
+            return ("%s:roundtrip:%s" % (k, i.get("c")), "format(parse(x)) does not parse back to the same value for %s class %s" % (k, i.get("c")))
+        if k == "url" and o.get("validate_consistent") is False:
+            return ("url:validate", "ValidateURL and ParseURL disagree")
+        return None
+
+    cases, r = ctx.tlc_table("fn/ConfParse")
+    cpath = os.path.join(ctx.tmp, "ConfParse_cases.json")
+    opath = os.path.join(ctx.tmp, "ConfParse_obs.ndjson")
+    ctx.go_run("fn", ["-name", "confparse", "-cases", cpath, "-out", opath], timeout=1800)
+    obs = vlib.read_ndjson(opath)
+    tail = obs[-1]
+    obs = obs[:-1]
+    for o in obs:
+        c = cases[o["i"]]
+        ctx.evaluations += 1
+        ctx.nontrivial.add(json.dumps(c["in"], sort_keys=True))
+        bad = judge(c, o)
+        if bad:
+            ctx.violation(bad[0], bad[1], {"case": c, "observed": o})
+    ctx.traces += len(obs)
+    ctx.evaluations += tail["random"]
+    ctx.cov["random_strings"] = tail["random"]
+    if tail["panics"]:
+        ctx.violation("random:panic", "%d parser panics on random strings, first: %s" % (tail["panics"], tail["first"]), tail)
+    ctx.sample({"case": cases[5], "observed": obs[5]})
+    ctx.exhaustive = True
